@@ -200,6 +200,7 @@ func cmdCheck(repo, prop, tier string) int {
 	}
 	var boundedList []map[string]interface{}
 	var knownOpen []map[string]interface{}
+	printed := map[string]bool{}
 	nBounded := 0
 	for _, o := range all {
 		if o.Bounded != "" {
@@ -242,6 +243,11 @@ func cmdCheck(repo, prop, tier string) int {
 				}
 			}
 			violations++
+			if printed[o.ID] {
+				// the same clause failed again while another function that executes this code in place was verified
+				continue
+			}
+			printed[o.ID] = true
 			path := e.writeReplay(prop, o, tier)
 			suffix := ""
 			if !o.Replayed {
